@@ -9824,6 +9824,17 @@ def _write_node(node, xml_tree=None, viewport_transform=None):
     elif isinstance(node, Use):
         # While Use elements are originally their own thing it can't be restored.
         xml_tree = subxml(xml_tree, SVG_TAG_GROUP)
+        for key in (
+            SVG_ATTR_X,
+            SVG_ATTR_Y,
+            SVG_ATTR_WIDTH,
+            SVG_ATTR_HEIGHT,
+            SVG_HREF,
+            XLINK_HREF,
+        ):
+            # These belong to the use element, on a group they would be inherited by its children.
+            if key in xml_tree.attrib:
+                del xml_tree.attrib[key]
         for child in node:
             _write_node(child, xml_tree, viewport_transform)
     elif isinstance(node, Group):
